@@ -335,7 +335,8 @@ fn utf8_read_step<const K: usize, const B: usize, const PL: usize>() {
 			let mut k = 0; while k < w { assert!(buf[k] == p[k], "bytes written are the UTF-8 of the text"); k += 1; }
 			let mut k = 0; while k < rest.len() { assert!(rest[k] == p[w + k], "held-back bytes continue the text"); k += 1; }
 			if !rest.is_empty() { assert!(w == bl); }
-			if w < bl { assert!(taken == n, "a short read only at the end of the source"); }
+			// (Read allows short reads at any time; only Ok(0) means end of input, so only that is pinned down)
+			if w == 0 && bl > 0 { assert!(taken == n, "Ok(0) -- end of input -- only at the end of the source"); }
 			kani::cover!(w == bl && !rest.is_empty(), "character straddles the end of the buffer");
 			kani::cover!(w < bl, "source ended");
 		}
